@@ -226,7 +226,8 @@ void oracle_purge_check(const Op& op) {
   for (auto& w : H.watch) {
     if (w.dropped) continue;
     if (os_is_hugetlb((uint64_t)w.p)) continue;      // pinned memory (explicit huge OS pages) is never purged
-    const bool huge = w.usable > (16u << 20);
+    // op.a bit 2: the plan freed every block, so every segment went back to its arena: whatever the segment had not purged itself is the arena's to purge
+    const bool huge = w.usable > (16u << 20) || ((op.a & 4) && H.live.empty());
     // preconditions of the statement: unused for longer than the delay (op.c ms) and op.b rounds of ordinary activity since
     if (clock_now_ns() / 1000000ull - w.t_ms < op.c || H.activity_rounds - w.rounds_at_free < op.b) continue;
     if (!huge) {
